@@ -201,7 +201,7 @@ func checkStandaloneFileOpt(call Call, data string, o *JSONCfg) error {
 		src = b
 	}
 	if want := canonicalJSONText(src, o); data != want {
-		return fmt.Errorf("file holds %q, the canonical pretty JSON of the input (form %s) is %q", clip(data), call.Form, clip(want))
+		return fmt.Errorf("file holds %q, the canonical pretty JSON of the input (form %s) is %q", vhClip(data), call.Form, vhClip(want))
 	}
 	return nil
 }
@@ -210,11 +210,11 @@ func checkStandaloneFile(call Call, data string) error {
 	switch call.API {
 	case "ssnap":
 		if want := call.snapText(); data != want {
-			return fmt.Errorf("file holds %q, want exactly the formatted value %q", clip(data), clip(want))
+			return fmt.Errorf("file holds %q, want exactly the formatted value %q", vhClip(data), vhClip(want))
 		}
 	case "sjson":
 		if !json.Valid([]byte(data)) {
-			return fmt.Errorf("file is not valid JSON: %q", clip(data))
+			return fmt.Errorf("file is not valid JSON: %q", vhClip(data))
 		}
 		return checkStandaloneJSON(data, string(call.Doc))
 	}
@@ -255,21 +255,21 @@ func checkC19(c c19Case) error {
 		r := Call{API: "ssnap", Vals: []Val{strVal(siblingValue)}}.invoke(cfg, fs)
 		fs.finish()
 		if out, err := outcomeOf(r); err != nil || out != oAdded {
-			return fmt.Errorf("recording the sibling test %q: outcome %q err %v errors=%q", clip(c.Sibling), out, err, clipAll(r.Errors))
+			return fmt.Errorf("recording the sibling test %q: outcome %q err %v errors=%q", vhClip(c.Sibling), out, err, vhClipAll(r.Errors))
 		}
 	}
 	ft := newFakeT(c.Test)
 	for i, cc := range c.Calls {
 		r := cc.Call.invoke(cfg, ft)
 		if out, err := outcomeOf(r); err != nil || out != wantOf(cc, oAdded) {
-			return fmt.Errorf("recording call %d (%s): outcome %q err %v errors=%q", i+1, cc.Call.API, out, err, clipAll(r.Errors))
+			return fmt.Errorf("recording call %d (%s): outcome %q err %v errors=%q", i+1, cc.Call.API, out, err, vhClipAll(r.Errors))
 		}
 	}
 	ft.finish()
 	st := snapDir(root)
 	for p, f := range st {
 		if !f.IsDir && !expectFiles[p] {
-			return fmt.Errorf("unexpected file %q appeared (expected exactly %v)", p, keysOf(expectFiles))
+			return fmt.Errorf("unexpected file %q appeared (expected exactly %v)", p, vhKeysOf(expectFiles))
 		}
 	}
 	for i, cc := range c.Calls {
@@ -278,7 +278,7 @@ func checkC19(c c19Case) error {
 		}
 		f, ok := st[slots[i].file]
 		if !ok {
-			return fmt.Errorf("standalone call %d (%s) did not create %q; directory has %v", i+1, cc.Call.API, slots[i].file, keysOfState(st))
+			return fmt.Errorf("standalone call %d (%s) did not create %q; directory has %v", i+1, cc.Call.API, slots[i].file, vhKeysOfState(st))
 		}
 		if err := checkStandaloneFileOpt(cc.Call, f.Data, c.Cfg.JSON); err != nil {
 			return fmt.Errorf("standalone call %d, file %q: %v", i+1, slots[i].file, err)
@@ -297,7 +297,7 @@ func checkC19(c c19Case) error {
 		for i, cc := range c.Calls {
 			r := cc.Call.invoke(cfg, ft)
 			if out, err := outcomeOf(r); err != nil || out != wantOf(cc, oPassed) {
-				return fmt.Errorf("replay execution %d call %d (%s, file %q): outcome %q err %v errors=%q", e+1, i+1, cc.Call.API, slots[i].file, out, err, clipAll(r.Errors))
+				return fmt.Errorf("replay execution %d call %d (%s, file %q): outcome %q err %v errors=%q", e+1, i+1, cc.Call.API, slots[i].file, out, err, vhClipAll(r.Errors))
 			}
 		}
 		ft.finish()
@@ -376,12 +376,12 @@ func checkC19(c c19Case) error {
 		}
 	}
 	if siblingFile != "" && after[siblingFile].Data != siblingValue {
-		return fmt.Errorf("the file of the sibling test %q holds %q after the runs of %q, want its own value %q", clip(c.Sibling), clip(after[siblingFile].Data), clip(c.Test), siblingValue)
+		return fmt.Errorf("the file of the sibling test %q holds %q after the runs of %q, want its own value %q", vhClip(c.Sibling), vhClip(after[siblingFile].Data), vhClip(c.Test), siblingValue)
 	}
 	return nil
 }
 
-func keysOf(m map[string]bool) []string {
+func vhKeysOf(m map[string]bool) []string {
 	var out []string
 	for k := range m {
 		out = append(out, k)
@@ -389,7 +389,7 @@ func keysOf(m map[string]bool) []string {
 	return out
 }
 
-func keysOfState(m dirState) []string {
+func vhKeysOfState(m dirState) []string {
 	var out []string
 	for k := range m {
 		out = append(out, filepath.Base(k))
@@ -457,7 +457,7 @@ func classifyC19(c c19Case) ([]string, bool) {
 	if strings.Contains(c.Test+c.Cfg.Filename+c.Cfg.Ext, "%") {
 		cls = append(cls, "percent_in_name")
 	}
-	return uniq(cls), nt
+	return vhUniq(cls), nt
 }
 
 func TestC19_Standalone(t *testing.T) {
